@@ -11,7 +11,7 @@ import time
 from multiprocessing import Pool
 
 import cbor
-from common import COPIA, NCPU, Result, SplitMix, build, finish, seed, workdir
+from common import asan_stage, COPIA, NCPU, Result, SplitMix, build, finish, seed, workdir
 from fsutil import B3, STAGING, base_env, install_standin, read_traces, rmtree, run, shim_env, snapshot, unesc
 from hubsched import PCT, Bounded, HubRun, Inconclusive, KillAt, Op, RandomWalk, Replay, walk_root
 
@@ -493,6 +493,8 @@ def c03(tier):
     rmtree(wroot)
     r.extra["enumerated_schedules"] = enum_total
     r.assumptions = ["steps are libc calls: one large write is one step (kernel atomicity of a single write is trusted)", "only the first read()/readdir() on each open descriptor is a scheduling point", "List is checked per path (the hub documents per-file atomicity); degenerate paths are exercised in C11/C12", "interleavings needing >= 3 pre-emptions are reached only by the PCT/random generators"]
+    if tier == "thorough":
+        asan_stage(r, "C03")
     finish(r, tier)
 
 
@@ -699,6 +701,8 @@ def c10(tier):
     rmtree(wroot)
     r.extra["kill_sweeps"] = {"programs": nsweeps, "victims_per_program": 2, "k_range": "1..160 (sweep ends at the victim's last gate)"}
     r.assumptions = ["kills land at gates (before libc calls) of the victim server", "sync_all -> nothing is not observable by a process kill; the order 'hash verified before rename' is", "staging names are recognised only by the .copia-tmp suffix"]
+    if tier == "thorough":
+        asan_stage(r, "C10")
     finish(r, tier)
 
 
@@ -715,6 +719,8 @@ def session(root, data, env, trace=None, alloc_floor=None, pieces=None, rlimit_a
         argv = ["valgrind", "-q", "--error-exitcode=97", "--errors-for-leak-kinds=none", "--leak-check=no"] + argv
         rlimit_as_kib = None
         timeout = max(timeout, 120)
+    if os.environ.get("VERIF_VARIANT") == "asan":
+        rlimit_as_kib = None  # ASan reserves terabytes of address space
     if rlimit_as_kib:
         argv = ["bash", "-c", "ulimit -c 0; ulimit -v %d; exec \"$0\" \"$@\"" % rlimit_as_kib] + argv
     t0 = time.time()
@@ -1014,6 +1020,8 @@ def c11(tier):
     rmtree(wroot)
     r.exhaustive = th
     r.assumptions = ["the served tree has no symlinks leading outside", "runtime noise (/proc, locale, cgroup files) appears in the control session too and cancels", "in the quick tier the exhaustive index space (4116 strings) is sampled with a coprime stride; the thorough tier covers it completely"]
+    if tier == "thorough":
+        asan_stage(r, "C11")
     finish(r, tier)
 
 
@@ -1331,12 +1339,16 @@ def c12(tier):
             jobs.append((seed(), lo, min(n, lo + per), wroot, mode))
     fold(r, run_jobs(_c12_worker, jobs))
     rmtree(wroot)
-    r.merge_vh(run_vh("c12", tier, cases=300000 if th else 20000), "twin-release:")
-    r.merge_vh(run_vh("c12", tier, profile="debug", cases=60000 if th else 4000, sd=seed() + 1000003), "twin-debug:")
+    from common import VARIANT
+    if not VARIANT:
+        r.merge_vh(run_vh("c12", tier, cases=300000 if th else 20000), "twin-release:")
+        r.merge_vh(run_vh("c12", tier, profile="debug", cases=60000 if th else 4000, sd=seed() + 1000003), "twin-debug:")
     if th:
         from libchecks import miri_stage
         miri_stage(r, "c12", "C12")
     r.assumptions = ["'no valid request' is asserted only for inputs that are so by construction; mutated frames are judged on crash/allocation/spin/content only", "allocation verdicts use exact evidence: a request >= a length prefix the driver put on the wire", "watchdog expiry without zero-length reads in the trace is inconclusive"]
+    if tier == "thorough":
+        asan_stage(r, "C12")
     finish(r, tier)
 
 
@@ -1828,4 +1840,6 @@ def c13(tier):
     fold(r, run_jobs(_c13_gate_worker, jobs2))
     rmtree(wroot)
     r.assumptions = ["in the gated part the hub-sync parents run freely; only their serve children are scheduled", "a local file missing from the hub is accepted only if the other client's different content is live there and that client reported no conflict on the path (a later acknowledged commit with a fresh listing)"]
+    if tier == "thorough":
+        asan_stage(r, "C13")
     finish(r, tier)
